@@ -168,10 +168,45 @@ func genRegion(t *rapid.T, c *simkit.ClusterSpec, jointPct, required int) simkit
 	return r
 }
 
-func genClusterOptions(t *rapid.T, c *simkit.ClusterSpec) {
+// collidingFamilies: label values of unequal width. Different label paths can
+// then read the same when their values are written one after the other
+// (a/bc and ab/c, 1/12 and 11/2), unlike the fixed-width names z1/r1/h1.
+var collidingFamilies = [][2][]string{
+	{{"a", "ab"}, {"bc", "c", "b"}},
+	{{"1", "11"}, {"12", "2", "1"}},
+	{{"dc1", "dc11"}, {"12", "2"}},
+}
+
+// genClusterOptions draws the remaining options and reshapes the topology. It
+// reports whether the cluster got labels of unequal width (the rule generator
+// then prefers isolation levels below the first location label).
+func genClusterOptions(t *rapid.T, c *simkit.ClusterSpec) (colliding bool) {
 	c.MaxStoreDownTimeSec = simkit.Pick(t, []int{0, 0, 0, 600, 3600, 3 * 3600}, "maxStoreDownTime")
 	if pct(t, 15, "lowSpaceRatio") {
 		c.LowSpaceRatio = simkit.Pick(t, []float64{0.7, 0.9}, "lowSpaceRatioValue")
+	}
+	if pct(t, 15, "unequalWidthValues") {
+		// every store fully labelled, few locations, values of unequal width;
+		// usually an isolation level below the first location label
+		colliding = true
+		fam := simkit.Pick(t, collidingFamilies, "valueFamily")
+		for i := range c.Stores {
+			var keep []simkit.Label
+			for _, l := range c.Stores[i].Labels {
+				if l.Key != "zone" && l.Key != "rack" && l.Key != "host" {
+					keep = append(keep, l)
+				}
+			}
+			c.Stores[i].Labels = append([]simkit.Label{
+				{Key: "zone", Value: simkit.Pick(t, fam[0], "zoneValue")},
+				{Key: "rack", Value: simkit.Pick(t, fam[1], "rackValue")},
+				{Key: "host", Value: simkit.Pick(t, fam[1], "hostValue")},
+			}, keep...)
+		}
+		c.LocationLabels = simkit.Pick(t, [][]string{{"zone", "rack"}, {"zone", "rack", "host"}, {"zone", "host"}}, "locLabelsUnequal")
+		if pct(t, 80, "isolationBelowFirst") {
+			c.IsolationLevel = simkit.Pick(t, c.LocationLabels[1:], "isolationLevelUnequal")
+		}
 	}
 	if pct(t, 25, "mixedCaseKeys") {
 		// pd treats store label KEYS case-insensitively (StoreInfo.GetLabelValue,
@@ -216,6 +251,7 @@ func genClusterOptions(t *rapid.T, c *simkit.ClusterSpec) {
 			}
 		}
 	}
+	return colliding
 }
 
 // freshStore is a store nothing can be said against: Up, heartbeat now, empty,
@@ -362,7 +398,7 @@ func anyStoreMatches(cl *simkit.ClusterSpec, cs []ConstraintSpec) bool {
 	return false
 }
 
-func genRules(t *rapid.T, cl *simkit.ClusterSpec) []RuleSpec {
+func genRules(t *rapid.T, cl *simkit.ClusterSpec, unequalWidth bool) []RuleSpec {
 	n := simkit.IntU(t, 1, 3, "nRules")
 	var out []RuleSpec
 	for i := 0; i < n; i++ {
@@ -398,6 +434,10 @@ func genRules(t *rapid.T, cl *simkit.ClusterSpec) []RuleSpec {
 		if len(r.LocationLabels) > 0 && pct(t, 30, "ruleIsolation") {
 			r.IsolationLevel = simkit.Pick(t, r.LocationLabels, "ruleIsolationLevel")
 		}
+		if unequalWidth && pct(t, 75, "ruleIsolationBelowFirst") {
+			r.LocationLabels = simkit.Pick(t, [][]string{{"zone", "rack"}, {"zone", "rack", "host"}, {"zone", "host"}}, "ruleLocLabelsUnequal")
+			r.IsolationLevel = simkit.Pick(t, r.LocationLabels[1:], "ruleIsolationLevelUnequal")
+		}
 		out = append(out, r)
 	}
 	return out
@@ -406,8 +446,8 @@ func genRules(t *rapid.T, cl *simkit.ClusterSpec) []RuleSpec {
 func genRuleCase(t *rapid.T) Case {
 	c := Case{Mode: "rule", Via: "direct"}
 	c.Cluster = simkit.GenCluster(t, simkit.ClusterGen{MinStores: 3, MaxStores: 8, HealthyBias: 60, Rules: "on"})
-	genClusterOptions(t, &c.Cluster)
-	c.Rules = genRules(t, &c.Cluster)
+	unequalWidth := genClusterOptions(t, &c.Cluster)
+	c.Rules = genRules(t, &c.Cluster, unequalWidth)
 	total := 0
 	for i := range c.Rules {
 		total += c.Rules[i].Count
